@@ -22,6 +22,8 @@ RULES = {
     "replaced-query": [A("x == 5"), {"s": 0, "op": "max", "e": "x + ZeroExt(1, y)", "signed": False, "extra": []}, A("y == 6"),
                        {"s": 0, "op": "min", "e": "x + ZeroExt(1, y)", "signed": False, "extra": []},
                        {"s": 0, "op": "solution", "e": "x - 1", "v": 4, "extra": []}, {"s": 0, "op": "batch_eval", "es": ["x", "y"], "n": 5, "extra": ["SLT(y, 0)"]}],
+    "compound-definition-after-query": [A("y == 6"), E("x + ZeroExt(1, y)", 3), A("x + ZeroExt(1, y) == 9"), E("x", 20),
+                                        {"s": 0, "op": "max", "e": "x", "signed": False, "extra": []}, {"s": 0, "op": "solution", "e": "x", "v": 4, "extra": []}],
     "branch-replacements": [A("x == 5"), {"s": 0, "op": "branch"}, A("ZeroExt(1, y) == x + 1", 1), E("y", 20, 1), E("y", 3, 0), A("y == 2", 0), E("x", 2, 0)],
     # witness of the open finding C13-replaced-constant-on-unsat (replayed on every run)
     "constant-on-unsat": [A("x != 5"), A("x == 5"), E("x", 20), {"s": 0, "op": "min", "e": "x", "signed": False, "extra": []},
